@@ -85,3 +85,63 @@ func TestTicker(t *testing.T) {
 	}
 	run.Floor("ticker_epochs", 100)
 }
+
+// TestPeerFailover: conservation across an owner outage. A subscriber is served by the ranked fallback while
+// its owner is unreachable, the owner comes back, the subscriber asks again and finally releases: afterwards
+// nothing may be left allocated anywhere in the cluster (the address the fallback handed out is back in circulation).
+func TestPeerFailover(t *testing.T) {
+	s := pools.PeerCluster("10.7.8.0/24", 26)
+	rounds := run.Pick(60, 1500)
+	rng := run.Rand("peer-failover")
+	p, err := s.New()
+	if err != nil {
+		t.Fatal(err)
+	}
+	h, _ := pools.AsPeerCluster(p)
+	nodes := h.Nodes()
+	for r := 0; r < rounds; r++ {
+		sub := pools.SubName(1000 + r*7)
+		owner := h.Owner(sub)
+		var others []string
+		for _, n := range nodes {
+			if n != owner {
+				others = append(others, n)
+			}
+		}
+		entry1, entry2, entry3 := others[rng.IntN(2)], nodes[rng.IntN(3)], nodes[rng.IntN(3)]
+		var steps []string
+		h.SetReachable(owner, false)
+		ip1, by1, err := h.AllocateAt(entry1, sub)
+		steps = append(steps, fmt.Sprintf("owner %s unreachable; Allocate(%q) at %s -> %s by %s (%v)", owner, sub, entry1, ip1, by1, err))
+		h.SetReachable(owner, true)
+		again := rng.IntN(3) > 0
+		if again {
+			ip2, by2, err := h.AllocateAt(entry2, sub)
+			steps = append(steps, fmt.Sprintf("owner reachable again; Allocate at %s -> %s by %s (%v)", entry2, ip2, by2, err))
+		}
+		err = h.ReleaseAt(entry3, sub)
+		steps = append(steps, fmt.Sprintf("Release at %s -> %v", entry3, err))
+		run.Eval()
+		run.Count("peer_failover_rounds", 1)
+		run.Nontrivial(fmt.Sprintf("peer-failover|%s|%s|%s|%s|%v", owner, entry1, entry2, entry3, again))
+		left := 0
+		al := h.Allocated()
+		for _, n := range al {
+			left += n
+		}
+		if left != 0 {
+			cls := "fallback-entry-left-after-owner-recovery"
+			if !again {
+				cls += "/released-without-asking-again"
+			}
+			run.Violation("pool.PeerPool/cluster", "conservation", cls, fmt.Sprintf("after the subscriber released, %d address(es) are still allocated in the cluster %v: nobody holds them and nobody can release them", left, al), map[string]any{"steps": steps})
+			// start from a clean cluster again so that every round is judged on its own
+			pools.Close(p)
+			if p, err = s.New(); err != nil {
+				t.Fatal(err)
+			}
+			h, _ = pools.AsPeerCluster(p)
+		}
+	}
+	run.Floor("peer_failover_rounds", 50)
+}
